@@ -28,7 +28,7 @@ FLOOR = {"quick": 300, "thorough": 5000}
 
 
 def plan(tier, seed):
-    per = 28 if tier == "quick" else 420
+    per = 60 if tier == "quick" else 500
     return [{"n": per} for _ in range(16)]
 
 
